@@ -12,6 +12,7 @@ import ast
 import re as _re
 from ..core import AnalysisError, norm, dotted, calls_in, walk_no_nested, parent, enclosing_stmt, const_value
 from ..flow import Flow, guard_chain, conjuncts
+from ..cfg import stmt_before
 from ..order import Interp
 from ..algebra_lin import linear_form
 
@@ -527,7 +528,7 @@ def rule_reject(ctx):
           and any(isinstance(s, ast.Raise) and "UnfilledPlaceholderError" in norm(s.exc) for s in st.body)]
     oku = bool(un) and norm(un[0].test).replace(" ", "") == "any((cinself._special_charsforcinfilename))"
     rets = [s for s in walk_no_nested(g.node) if isinstance(s, ast.Return)]
-    oku = oku and len(rets) == 1 and un[0].lineno < rets[0].lineno
+    oku = oku and len(rets) == 1 and stmt_before(g.node, un[0], rets[0])
     ctx.ob("FileSet.get_filename.unfilled", oku, "%s" % (norm(un[0].test) if un else None), "a generated name that still contains template characters raises UnfilledPlaceholderError before it is returned",
            node=un[0] if un else g.node, func=g)
 
@@ -563,7 +564,7 @@ def rule_anchor(ctx, rule="C01.anchor"):
         fact = chain
         # order inside the chain: backslash first, then dot, then star
         i_b, i_d, i_s = chain.find("replace('\\\\', "), chain.find("replace('.', '\\\\.')"), chain.find("replace('*', '.*?')")
-        oke = -1 < i_b < i_d < i_s and esc[0].lineno < rs[0].lineno
+        oke = -1 < i_b < i_d < i_s and stmt_before(f.node, esc[0], rs[0])
     ctx.ob("FileSet._fill_placeholders.escape", oke, "%s" % fact, "backslashes, then '.' -> '\\.', then '*' -> '.*?' on the template itself, before format() inserts the placeholder regexes "
            "(which contain dots and stars of their own)", node=esc[0] if esc else f.node, func=f)
     # users: the compiled regex is applied with match (anchored by ^...$)
